@@ -413,3 +413,165 @@ func R76() Rule {
 		}
 	}}
 }
+
+// ---------------------------------------------------------------------------
+// R78: a listing page is bounded by maxResults on every path that records an entry.
+//
+// C11: "No page holds more than maxResults entries".  In the function handed to
+// Store.Walk, every statement that grows a result list (an `append` whose result
+// is kept in a variable or field that outlives the callback) lies behind the test
+// of the page counter against maxResults (on its not-yet-full edge) and behind the
+// increment of that very counter.  Moving the increment behind the early return of
+// the delimiter branch, or testing the limit only on the plain-item path, lets a
+// page grow without bound (every object under a thousand different "directories"
+// is one collapsed prefix each).
+// ---------------------------------------------------------------------------
+
+func R78() Rule {
+	return Rule{Name: "R78", Run: func(c *core.Ctx) {
+		P := c.P
+		if P.SPkgs[core.PkgGcsemu] == nil {
+			return
+		}
+		root := P.MustFunc(core.PkgGcsemu, "(*GcsEmu).handleGcsListBucket")
+		c.Fn("(*GcsEmu).handleGcsListBucket")
+		scope := P.Scope(root, func(f *ssa.Function) bool { return core.PkgPathOf(f) != core.PkgGcsemu })
+		within := setOf(scope)
+		// maxResults: the result of strconv.Atoi / ParseInt in the listing path
+		isMax := func(v ssa.Value) bool {
+			ex, ok := v.(*ssa.Extract)
+			if !ok || ex.Index != 0 {
+				return false
+			}
+			call, ok := ex.Tuple.(*ssa.Call)
+			if !ok {
+				return false
+			}
+			ci := core.Call(call)
+			return ci != nil && (ci.IsFunc("strconv", "Atoi") || ci.IsFunc("strconv", "ParseInt")) && within[call.Parent()]
+		}
+		var cbs []*ssa.Function
+		seenCb := map[*ssa.Function]bool{}
+		for _, ci := range core.CallsIn(scope, func(ci *core.CallInfo) bool { return isStoreCall(ci, "Walk") }) {
+			for _, a := range ci.Common.Args {
+				if _, isFn := a.Type().Underlying().(*types.Signature); !isFn {
+					continue
+				}
+				cands := []ssa.Value{a}
+				if closureOf(a) == nil {
+					cands = P.Origins(a, within)
+				}
+				for _, o := range cands {
+					if cb := closureOf(o); cb != nil && cb.Blocks != nil && !seenCb[cb] {
+						seenCb[cb] = true
+						cbs = append(cbs, cb)
+					}
+				}
+			}
+		}
+		if len(cbs) == 0 {
+			c.Unknown("R78", "listing/walk-callback", root.Pos(), "no function handed to Store.Walk found in the listing path")
+			return
+		}
+		for i, cb := range cbs {
+			base := fmt.Sprintf("listing/walk-callback#%d", i+1)
+			// the limit test: an If comparing a counter location with maxResults
+			var limitIf *ssa.If
+			var counterLoc string
+			notFull := -1
+			for _, b := range cb.Blocks {
+				ifi, ok := lastIf(b)
+				if !ok {
+					continue
+				}
+				bin, ok := ifi.Cond.(*ssa.BinOp)
+				if !ok {
+					continue
+				}
+				l, r, op := bin.X, bin.Y, bin.Op
+				if flowsFrom(P, l, isMax, map[ssa.Value]bool{}, 0) && !flowsFrom(P, r, isMax, map[ssa.Value]bool{}, 0) {
+					l, r, op = r, l, flipOp(op)
+				}
+				if !flowsFrom(P, r, isMax, map[ssa.Value]bool{}, 0) {
+					continue
+				}
+				loc := loadedLocation(l)
+				if loc == "" {
+					continue
+				}
+				switch op { // counter OP max
+				case token.GEQ, token.GTR, token.EQL:
+					notFull = 1
+				case token.LSS, token.LEQ, token.NEQ:
+					notFull = 0
+				default:
+					continue
+				}
+				limitIf, counterLoc = ifi, loc
+			}
+			if limitIf == nil {
+				c.Bad("R78", base+"/limit-tested", cb.Pos(), "the walk callback never compares a page counter with maxResults: a page holds as many entries as the bucket has")
+				continue
+			}
+			okEdge := limitIf.Block().Succs[notFull]
+			// increments of the counter
+			var incs []*ssa.Store
+			for _, b := range cb.Blocks {
+				for _, in := range b.Instrs {
+					st, ok := in.(*ssa.Store)
+					if !ok || locationOf(st.Addr) != counterLoc {
+						continue
+					}
+					if bin, ok := st.Val.(*ssa.BinOp); ok && bin.Op == token.ADD && loadedLocation(bin.X) == counterLoc {
+						if k, isK := core.ConstInt(bin.Y); isK && k == 1 {
+							incs = append(incs, st)
+						}
+					}
+				}
+			}
+			n := 0
+			for _, b := range cb.Blocks {
+				for _, in := range b.Instrs {
+					st, ok := in.(*ssa.Store)
+					if !ok {
+						continue
+					}
+					call, ok := core.Strip(st.Val).(*ssa.Call)
+					if !ok {
+						continue
+					}
+					if bi, ok := call.Call.Value.(*ssa.Builtin); !ok || bi.Name() != "append" {
+						continue
+					}
+					loc := locationOf(st.Addr)
+					if loc == "" {
+						continue
+					}
+					if _, local := st.Addr.(*ssa.Alloc); local {
+						continue // a list that does not outlive this invocation
+					}
+					n++
+					construct := fmt.Sprintf("%s/append#%d/behind-the-page-limit", base, n)
+					behindTest := okEdge.Dominates(st.Block()) && len(okEdge.Preds) == 1
+					behindInc := false
+					for _, inc := range incs {
+						if core.InstrDominates(inc, st) {
+							behindInc = true
+						}
+					}
+					switch {
+					case !behindTest:
+						c.Bad("R78", construct, st.Pos(), "an entry is recorded on a path that has not passed the test of the page counter against maxResults (on its not-yet-full edge): the page can hold more than maxResults entries")
+					case !behindInc:
+						c.Bad("R78", construct, st.Pos(), "an entry is recorded without the page counter having been incremented in this invocation: entries of this kind (e.g. collapsed prefixes) do not count towards maxResults and a page can grow without bound")
+					default:
+						c.Ok("R78", construct, st.Pos(), true, "recorded only after the limit test passed and the counter was incremented")
+					}
+				}
+			}
+			if n == 0 {
+				c.Ok("R78", base+"/no-direct-append", cb.Pos(), false, "the callback records entries through helpers only (not decided here)")
+			}
+		}
+	}}
+}
